@@ -165,14 +165,21 @@ Inductive piece :=
 | PQuote (x : string)      (* regexp.QuoteMeta(variable) *)
 | POther (what : string).  (* anything the translator does not recognise *)
 
-(* the pattern text for a one-variable expression; None when the expression is not of the
-   literal/verbatim-variable form the models cover *)
+(* the pattern text for a one-variable expression; None when the expression contains a piece the
+   translator did not recognise *)
+(* regexp.QuoteMeta: a backslash before each of the bytes \.+*?()|[]{}^$ *)
+Fixpoint quote_meta (s : string) : string :=
+  match s with
+  | EmptyString => EmptyString
+  | String c s' => if is_meta c then String "\"%char (String c (quote_meta s')) else String c (quote_meta s')
+  end.
+
 Fixpoint render (ps : list piece) (arg : string) : option string :=
   match ps with
   | [] => Some ""
   | PLit s :: t => option_map (fun r => s ++ r) (render t arg)
   | PVar _ :: t => option_map (fun r => arg ++ r) (render t arg)
-  | PQuote _ :: _ => None
+  | PQuote _ :: t => option_map (fun r => quote_meta arg ++ r) (render t arg)
   | POther _ :: _ => None
   end.
 
